@@ -460,6 +460,8 @@ void BW_MidiSequencer::setSongNum(int track)
     {
         if(m_loadTrackNumber >= (int)m_rawSongsData.size())
             m_loadTrackNumber = m_rawSongsData.size() - 1;
+        if(m_loadTrackNumber < 0) // "mix all" isn't supported for separately converted songs
+            m_loadTrackNumber = 0;
 
         if(m_interface && m_interface->rt_controllerChange)
         {
@@ -3087,8 +3089,16 @@ bool BW_MidiSequencer::parseXMI(FileAndMemReader &fr)
         return false;
     }
 
+    if(song_buf.empty())
+    {
+        m_errorString = "Invalid XMI data format!";
+        return false;
+    }
+
     if(m_loadTrackNumber >= (int)song_buf.size())
         m_loadTrackNumber = song_buf.size() - 1;
+    if(m_loadTrackNumber < 0) // "mix all" isn't supported for separately converted songs
+        m_loadTrackNumber = 0;
 
     for(size_t i = 0; i < song_buf.size(); ++i)
     {
